@@ -194,6 +194,7 @@ def execute(wd, sc):
 
     levels = {}  # level -> snapshot of the grid (axis, origin) the level's object works on
     frozen = []  # (level, path manager list, index, coarse deterministic path, fine deterministic path) at creation
+    chain_drift = {}  # level -> (drift of the level-(l-1) chain, drift of the level-l chain)
 
     script_u = {"u": None}
 
@@ -240,6 +241,10 @@ def execute(wd, sc):
             if not np.allclose(pair[0], fine_now, rtol=1e-12, atol=1e-12 * sc_):
                 add("C03.c|fine deterministic path of the pair is not the one of the fine chain|" + cls, {"level": lvl})
             frozen.append((lvl, path_managers, len(path_managers) - 1, before["det_fine"].copy(), fine_now.copy()))
+        if before["det_fine"] is not None:
+            # chain drifts per unit time: previous level (-> coarse component) and this level (-> fine component)
+            chain_drift[lvl] = (float(before["det_fine"][1] - before["det_fine"][0]),
+                                float(np.ravel(cp.fine_process.process_drift())[0]))
         # ---- b: telescoping sum over all fine states --------------------------------------------------------
         mass = cp.fine_process.model.mass
 
@@ -377,6 +382,27 @@ def execute(wd, sc):
         if not np.allclose(pair[1], det_c, rtol=1e-12, atol=1e-12 * sc_) or not np.allclose(pair[0], det_f, rtol=1e-12, atol=1e-12 * sc_):
             add(f"C03.c|deterministic paths of a level changed after later levels were built|method={sc['process']['method']}",
                 {"level": lvl, "coarse_now": pair[1].tolist(), "coarse_at_creation": det_c.tolist()})
+    # ---- c (SDE coupling): with a = 1 the drift component of each half of the pair is (chain drift) * t ------------
+    if sc["variant"] == "sde":
+        T_ = sc["product"]["maturity"]
+        lvl0_drift = {0: chain_drift[1][0]} if 1 in chain_drift else {}
+        for smp in wd.samples:
+            lvl = smp.get("level")
+            if "drift" not in smp or not lvl or lvl not in chain_drift:
+                continue
+            dr = np.asarray(smp["drift"], dtype=float)
+            if dr.ndim != 3:
+                continue
+            mu_c, mu_f = chain_drift[lvl]
+            wd.probes["c03.sde_pair_drift_checked"] += 1
+            got_f, got_c = dr[0].ravel()[-1] / T_, dr[1].ravel()[-1] / T_
+            if abs(got_f - mu_f) > 1e-10 * (1 + abs(mu_f)):
+                add("C03.c|fine component of the SDE pair is not driven with the drift of its level's chain|sde-coupling",
+                    {"level": lvl, "got": float(got_f), "expected": mu_f})
+            if abs(got_c - mu_c) > 1e-10 * (1 + abs(mu_c)):
+                mech = "uses-the-level-0-drift" if 0 in lvl0_drift and abs(got_c - lvl0_drift[0]) <= 1e-10 * (1 + abs(got_c)) and lvl >= 2 else "other"
+                add(f"C03.c|coarse component of the SDE pair is not driven with the drift of the previous level's chain|{mech}|sde-coupling",
+                    {"level": lvl, "got": float(got_c), "expected": mu_c})
     # ---- a: every coupled jump of every path ----------------------------------------------------------------
     for (lvl, incs, coarse_cum) in wd.c03["slices"]:
         if lvl not in levels or not incs:
